@@ -1,5 +1,6 @@
 import Dmn.Model.Sexp
 import Dmn.Model.LalrDriver
+import Dmn.Model.TemporalMachine
 
 /-!
 Driver handler for C05 (parser side):
@@ -11,6 +12,12 @@ Driver handler for C05 (parser side):
   `(S state) (T code) (R rule) (N state) … (result …)` in the order in which the traced Rust
   parser prints `NEW-STATE`, `lexer: yy_char`, `reducing_using_rule`, `new_state`.
 * `(c05 tables)` — lengths and constants of the regenerated tables.
+* `(c05 temporal <checked|wrapping> <op> <operand>…)` — the machine-integer model of a temporal
+  operation (`Dmn.TemporalMachine.run`): `ymAdd a b`, `ymSub a b`, `ymNeg a`, `ymYears a`,
+  `ymMonths a`, `ymPrint a`, `dtdAdd a b`, `dtdSub a b`, `dtdNeg a`, `dtdDays a`, `dtdHours a`,
+  `dtdMinutes a`, `dtdSeconds a`, `dtdPrint a`, `time4Offset a`, `ymLit y m neg`,
+  `dtLit d h m s f neg` (a component is an integer or `none`), `dateYm y1 m1 d1 y2 m2 d2`,
+  `dateWeekday y m d`.  Answer: `(ok null)`, `(ok (int n))`, `(ok (s c…))` or `(panic site)`.
 -/
 
 namespace Dmn.Driver.C05
@@ -56,8 +63,60 @@ def tokOf : Sexp → Option LexRes
   | .atom "err" => some .err
   | x => (Sexp.int? x).map .tok
 
+def optInt? : Sexp → Option (Option Int)
+  | .atom "none" => some none
+  | x => (Sexp.int? x).map some
+
+def temporalOp (name : String) (xs : List Sexp) : Option TemporalMachine.Op :=
+  let ints := xs.mapM Sexp.int?
+  match name, ints with
+  | "ymAdd", some [a, b] => some (.ymAdd a b)
+  | "ymSub", some [a, b] => some (.ymSub a b)
+  | "ymNeg", some [a] => some (.ymNeg a)
+  | "ymYears", some [a] => some (.ymYears a)
+  | "ymMonths", some [a] => some (.ymMonths a)
+  | "ymPrint", some [a] => some (.ymPrint a)
+  | "dtdAdd", some [a, b] => some (.dtdAdd a b)
+  | "dtdSub", some [a, b] => some (.dtdSub a b)
+  | "dtdNeg", some [a] => some (.dtdNeg a)
+  | "dtdDays", some [a] => some (.dtdDays a)
+  | "dtdHours", some [a] => some (.dtdHours a)
+  | "dtdMinutes", some [a] => some (.dtdMinutes a)
+  | "dtdSeconds", some [a] => some (.dtdSeconds a)
+  | "dtdPrint", some [a] => some (.dtdPrint a)
+  | "time4Offset", some [a] => some (.time4Offset a)
+  | "dateYm", some [y1, m1, d1, y2, m2, d2] => some (.dateYm ⟨y1, m1.toNat, d1.toNat⟩ ⟨y2, m2.toNat, d2.toNat⟩)
+  | "dateWeekday", some [y, m, d] => some (.dateWeekday ⟨y, m.toNat, d.toNat⟩)
+  | "ymLit", _ =>
+    match xs with
+    | [y, mo, neg] =>
+      match optInt? y, optInt? mo, Sexp.bool? neg with
+      | some y, some mo, some neg => some (.ymLit y mo neg)
+      | _, _, _ => none
+    | _ => none
+  | "dtLit", _ =>
+    match xs with
+    | [d, h, mi, s, f, neg] =>
+      match optInt? d, optInt? h, optInt? mi, optInt? s, optInt? f, Sexp.bool? neg with
+      | some d, some h, some mi, some s, some f, some neg => some (.dtLit d h mi s f neg)
+      | _, _, _, _, _, _ => none
+    | _ => none
+  | _, _ => none
+
+def temporalRes : Outcome TemporalMachine.Res → String
+  | .ok .null => "(ok null)"
+  | .ok (.int n) => s!"(ok (int {n}))"
+  | .ok (.text cs) => "(ok " ++ Sexp.toStr (Sexp.ofChars cs) ++ ")"
+  | .panic site => s!"(panic {site})"
+  | .diverge => "(diverge)"
+
 def handle (args : List Sexp) : String :=
   match args with
+  | .atom "temporal" :: .atom mode :: .atom name :: xs =>
+    let m : Option IntMode := if mode = "checked" then some .checked else if mode = "wrapping" then some .wrapping else none
+    match m, temporalOp name xs with
+    | some m, some op => temporalRes (TemporalMachine.run m op)
+    | _, _ => "(error bad-args)"
   | [.atom "drive", .list toks, failAt, fuel] =>
     match toks.mapM tokOf, Sexp.int? failAt, Sexp.nat? fuel with
     | some toks, some failAt, some fuel =>
